@@ -877,6 +877,9 @@ type hitResult struct {
 	reason   string
 	observed bool
 	stamp    string
+	method   string
+	path     string // request path
+	location string // Location header of a redirect
 }
 
 func (e *authEngine) send(s *srvRec, method, target string, host *string, r *reqSpec, extra map[string]string) hitResult {
@@ -894,9 +897,10 @@ func (e *authEngine) send(s *srvRec, method, target string, host *string, r *req
 	}
 	w := &recorder{ResponseRecorder: httptest.NewRecorder(), ch: make(chan bool)}
 	before := e.mgr.observed()
+	reqPath := req.URL.Path // gin's redirect rewrites req.URL.Path in place
 	s.h.ServeHTTP(w, req)
 	res := hitResult{status: w.Code, reason: jsonError(w.Body.Bytes()), observed: e.mgr.observed() != before,
-		stamp: w.Header().Get("X-Stamp")}
+		stamp: w.Header().Get("X-Stamp"), method: method, path: reqPath, location: w.Header().Get("Location")}
 	switch {
 	case w.Code == 401 && denyReasons[res.reason]:
 		res.class = "deny"
@@ -922,7 +926,7 @@ func pathURL(p string) string { return "http://piko.local" + (&url.URL{Path: p})
 
 // oracleHit: a request without an acceptable token must be answered 401 by the middleware and
 // must not be observed by any route handler or upstream.
-func (e *authEngine) oracleHit(o *Out, s *srvRec, valid bool, h hitResult, what string) {
+func (e *authEngine) oracleHit(o *Out, kind string, s *srvRec, valid bool, h hitResult, what string) {
 	if !s.auth || valid {
 		return
 	}
@@ -934,12 +938,51 @@ func (e *authEngine) oracleHit(o *Out, s *srvRec, valid bool, h hitResult, what 
 	switch h.class {
 	case "deny":
 	case "redirect":
-		// gin answers a trailing-slash redirect before any middleware: no handler runs, but
-		// the status is not 401 (reported as an observation, see the check's manifest)
+		// gin answers a trailing-slash redirect before any middleware: no handler runs, but the
+		// status is not 401 (known finding F7 redirect-before-auth).  tsr=1 only when the
+		// redirect goes to the registered trailing-slash sibling of the requested path.
+		tsr := 0
+		if u, err := url.Parse(h.location); err == nil && u.Path == altSlash(h.path) && routeMatches(routesOf(s.h), h.method, u.Path) {
+			tsr = 1
+		}
 		o.Count("unauthenticated-redirect")
+		// reported once per (server, method, path, outcome) and process: the sweeps repeat it
+		key := fmt.Sprintf("%s %s %s %d %d", kind, h.method, h.path, h.status, tsr)
+		if reportedRedirects[key] {
+			break
+		}
+		reportedRedirects[key] = true
+		o.Fail("C09", "status-not-401", fmt.Sprintf("server=%s method=%s path=%s location=%s status=%d tsr=%d", kind, h.method, Hx(h.path), Hx(h.location), h.status, tsr))
 	default:
 		o.Fail("C09", "route-ran", fmt.Sprintf("unauthenticated request got status %d (%s): %s", h.status, us(h.reason), what))
 	}
+}
+
+// routeMatches: some registered route of the method matches the path (":x" = one non-empty segment).
+func routeMatches(routes []string, method, path string) bool {
+	ps := strings.Split(path, "/")
+	for _, r := range routes {
+		i := strings.Index(r, ":")
+		if r[:i] != method {
+			continue
+		}
+		rs := strings.Split(r[i+1:], "/")
+		if len(rs) != len(ps) {
+			continue
+		}
+		ok := true
+		for j := range rs {
+			if strings.HasPrefix(rs[j], ":") {
+				ok = ok && ps[j] != ""
+			} else {
+				ok = ok && rs[j] == ps[j]
+			}
+		}
+		if ok {
+			return true
+		}
+	}
+	return false
 }
 
 func concretePath(p string) string {
@@ -958,6 +1001,8 @@ func altSlash(p string) string {
 	}
 	return p + "/"
 }
+
+var reportedRedirects = map[string]bool{}
 
 type probe struct{ method, path string }
 
@@ -1166,7 +1211,7 @@ func (e *authEngine) Step(ws []string, o *Out) string {
 		}
 		valid, _ := e.gtValid(r)
 		h := e.send(s, ws[2], pathURL(Unhx(ws[3])), nil, r, nil)
-		e.oracleHit(o, s, valid, h, strings.Join(ws, " "))
+		e.oracleHit(o, ws[1], s, valid, h, strings.Join(ws, " "))
 		o.Count("hit:" + h.class)
 		return "hit " + h.String()
 	case "sweep":
@@ -1182,7 +1227,7 @@ func (e *authEngine) Step(ws []string, o *Out) string {
 		var out []string
 		for _, p := range probesOf(routesOf(s.h)) {
 			h := e.send(s, p.method, pathURL(p.path), nil, r, nil)
-			e.oracleHit(o, s, valid, h, ws[1]+" "+p.method+" "+p.path)
+			e.oracleHit(o, ws[1], s, valid, h, ws[1]+" "+p.method+" "+p.path)
 			o.Count("sweep:" + h.class)
 			out = append(out, h.class[:1])
 		}
